@@ -208,6 +208,7 @@ Lemma run_batch_order ord m g :
     run_batch ord m g fuel s tasks log = run_batch (fun l => l) m g fuel s' tasks log.
 Proof.
   intros Hg Hord. induction fuel as [|f IH]; intros s s' tasks log H Hok; simpl; [reflexivity|].
+  destruct (existsb prefail tasks); [reflexivity|].
   destruct (existsb failed tasks); [reflexivity|].
   destruct tasks as [|t0 tasks0]; [reflexivity|]. set (tasks := t0 :: tasks0) in *.
   assert (Hnd : NoDup (map fst (map run_task tasks))).
